@@ -333,7 +333,13 @@ func (y *vsSys) Step(s *vsState, l engine.Letter) (*vsState, string, *engine.Vio
 		}
 		// facts for the oracle / known-finding predicates, taken before registration
 		pl := &vsPlan{height: h, op: d.op, key: d.key, execs: d.execs}
-		err := s.w.K.RegisterExecutorChangePlan(1, h, valOf(d.op), "planval", pubKeyJSON(s.w, d.key), "info", execs)
+		// L1 proposal ids and L2 heights need not be ordered alike: the first plan comes from proposal 2,
+		// the second one (always for a later height) from proposal 1, which passed earlier on L1
+		pid := uint64(2)
+		if s.plan != nil {
+			pid = 1
+		}
+		err := s.w.K.RegisterExecutorChangePlan(pid, h, valOf(d.op), "planval", pubKeyJSON(s.w, d.key), "info", execs)
 		if err != nil && (d.key == vsUnusableKey || d.key == vsShortKey || d.key == vsSecpKey) {
 			return c, "rejected-unusable-key", nil // refusing a key the engine cannot use is fine
 		}
